@@ -70,7 +70,8 @@ class C17(InterpProp):
         #  such guests are only used for renaming)
         if rnd.random() < 0.7 or root_final:
             names = list(sc.states)
-            if rnd.random() < 0.3 and len(names) >= 3:
+            warm = rnd.choice([False, True, True, 'light', 'light'])
+            if rnd.random() < (0.7 if warm == 'light' else 0.3) and len(names) >= 3:
                 # an order-preserving shift along a block of consecutive names (in name order): the last
                 # gets a fresh, slightly larger name, every other takes the name of its successor —
                 # freed names are reused at once
@@ -91,7 +92,15 @@ class C17(InterpProp):
                     rn = [n, n + rnd.choice(['!', '!!', '!0'])]
                     if order_kept(names, renames + [rn]):
                         renames.append(rn)
-            payload = {'mode': 'rename', 'renames': renames, 'warm': rnd.random() < 0.5}
+            # used before it is renamed: not at all, thoroughly (every structural question asked), or lightly (run
+            # for a few steps only: what the statechart remembers then covers some of its states and not others)
+            payload = {'mode': 'rename', 'renames': renames, 'warm': warm}
+            if renames and rnd.random() < 0.3:
+                # a rename the statechart refuses (the name is taken) comes first and is caught by the client
+                old = rnd.choice(renames)[0]
+                taken = [n for n in names if n != old]
+                if taken:
+                    payload['refused'] = [[old, rnd.choice(taken)]]
             charts = [sc]
         else:
             payload = {'mode': 'copy', 'prefix': rnd.choice(['g_', 'zz_', 'a0'])}
@@ -117,9 +126,19 @@ class C17(InterpProp):
         ok = True
         if p['mode'] == 'rename':
             if p.get('warm'):
-                gen.warm(sc2)        # the statechart was used before it is renamed
+                gen.warm(sc2, light=(p['warm'] == 'light'))        # the statechart was used before it is renamed
             cur = {n: n for n in sc.states}      # original name -> current name
             edit_ops = []
+            from sismic.exceptions import StatechartError
+            for old, new in p.get('refused', []):
+                edit_ops.append(['rename_state', old, new])
+                try:
+                    sc2.rename_state(old, new)
+                    ok = False          # (a taken name was accepted)
+                except StatechartError:
+                    pass
+                except Exception:
+                    ok = False
             for old, new in p['renames']:
                 edit_ops.append(['rename_state', old, new])
                 try:
@@ -157,6 +176,11 @@ class C17(InterpProp):
         p['cases'] = [edit_case, interp_case]
         p['rho'] = rho
         p['edit_ok'] = ok
+        if ok and not p.get('copy_error'):
+            # what was renamed / copied into answers every structural question as its parents and children imply
+            bad = gen.inconsistent(twin)
+            if bad:
+                p['twin_inconsistent'] = bad
         case.aux.update({'charts': [sc, twin], 'twin': twin})
         case.model_ok = e1.supported and e2.supported
 
@@ -198,13 +222,13 @@ class C17(InterpProp):
         p = case.payload
         ops = p['ops1']
         for i in range(len(ops) - 1, -1, -1):
-            q = {k: v for k, v in p.items() if k not in ('cases', 'rho', 'edit_ok')}
+            q = {k: v for k, v in p.items() if k not in ('cases', 'rho', 'edit_ok', 'twin_inconsistent')}
             q = copy.deepcopy(q)
             del q['ops1'][i]
             yield q
         if p['mode'] == 'rename' and len(p['renames']) > 1:
             for i in range(len(p['renames'])):
-                q = {k: v for k, v in p.items() if k not in ('cases', 'rho', 'edit_ok')}
+                q = {k: v for k, v in p.items() if k not in ('cases', 'rho', 'edit_ok', 'twin_inconsistent')}
                 q = copy.deepcopy(q)
                 del q['renames'][i]
                 if order_kept([st['name'] for st in p['chart0']['states']], q['renames']):
@@ -215,6 +239,8 @@ class C17(InterpProp):
         p = case.payload
         rho = p['rho']
         sc, twin = case.aux['run_charts']
+        if p.get('twin_inconsistent'):
+            res.violations.append('after the edit the statechart contradicts itself: ' + p['twin_inconsistent'])
         if not p['edit_ok']:
             res.violations.append('the edit itself failed: %s' % p.get('copy_error', 'rename_state raised'))
             return
